@@ -63,7 +63,7 @@ func findVoteHandlers(w *World) []voteHandler {
 func allValidEdges(a *FnA, m *Shape) []Edge {
 	var edges []Edge
 	ms := m.String()
-	for _, b := range a.fn.Blocks {
+	for _, b := range a.blocks() {
 		if len(b.Instrs) == 0 {
 			continue
 		}
@@ -151,6 +151,7 @@ func runC05(r *Run) {
 	r.Rule("C05.5", "kernel side: a view's proof maps are written only by the add-vote functions, replay and start-up; each kind writes its own maps, recomputes its own powers and persists its own collection")
 	r.Rule("C05.6", "kind separation: prevote and precommit siblings reference no symbol of the other kind and agree in callee / result summaries modulo the kind")
 
+	freshActionsChannel(r, "C05.7")
 	hs := findVoteHandlers(w)
 	if len(hs) != 4 {
 		r.Fail("C05.1", "handlers", "", fmt.Sprintf("expected 4 vote handlers sending kernel add requests, found %d", len(hs)))
@@ -195,7 +196,9 @@ func runC05(r *Run) {
 			for i, t := range append(append([]ssa.Instruction{}, merges...), targets...) {
 				r.RequireGuards(a, "C05.1", fmt.Sprintf("%s#site%d", name, i+1), t, pk)
 			}
-			// keys and sign bytes of new proofs
+			// keys and sign bytes of new proofs: what reaches the scheme's New through the helper, stated
+			// in the handler's terms (the helper's parameters replaced by this call's arguments), so the
+			// helper's signature does not matter
 			helper := "tmmirror.Mirror.makeNew" + h.kind + "Proof"
 			for i, c := range a.CallsTo(helper, "tmmirror.Mirror.makeNew"+other+"Proof") {
 				con := fmt.Sprintf("%s#newproof%d", name, i+1)
@@ -204,31 +207,26 @@ func runC05(r *Run) {
 				if viewBind != nil {
 					v = viewBind.String()
 				}
-				ht := a.sh.Of(CallArg(c, 1)).String()
-				rd := a.sh.Of(CallArg(c, 2)).String()
-				bh := a.sh.Of(CallArg(c, 3))
-				keys := a.sh.Of(CallArg(c, 4)).String()
-				kh := a.sh.Of(CallArg(c, 5)).String()
-				ok := cn == helper && ht == "p2.Height" && rd == "p2.Round" && bh.K == "rk" &&
-					keys == v+".RoundView.ValidatorSet.PubKeys" && kh == v+".RoundView.ValidatorSet.PubKeyHash"
-				r.Check(ok, "C05.1", con, w.InstrPos(c), fmt.Sprintf("new %s proof for (%s, %s, %s) over keys %s / %s via %s", h.kind, ht, rd, truncate(bh.String(), 40), keys, kh, cn))
-			}
-			// the helper itself: sign bytes of the right kind over its arguments
-			if hf := w.Fn(helper); hf != nil {
-				ha := w.AU(hf)
-				sb := ha.CallsTo("tmconsensus." + h.kind + "SignBytes")
-				wrong := ha.CallsTo("tmconsensus." + other + "SignBytes")
-				news := ha.CallsTo("gcrypto.CommonMessageSignatureProofScheme.New")
-				ok := len(sb) == 1 && len(wrong) == 0 && len(news) == 1
+				ca, conv := a.CalleeConv(c)
+				ok := cn == helper && ca != nil
 				det := ""
 				if ok {
-					vt := ha.sh.Of(CallArg(sb[0], 0)).String()
-					nw := ha.sh.Of(news[0].(ssa.Value)).String()
-					ok = vt == "lit:tmconsensus.VoteTarget{Height:p1,Round:p2,BlockHash:p3}" &&
-						strings.HasPrefix(nw, "@@gcrypto.CommonMessageSignatureProofScheme.New(p0.cmspScheme,@tmconsensus."+h.kind+"SignBytes(") && strings.HasSuffix(nw, ")#0,p4,p5)")
-					det = vt + " ; " + truncate(nw, 200)
+					news := ca.CallsTo("gcrypto.CommonMessageSignatureProofScheme.New")
+					wrong := ca.CallsTo("tmconsensus." + other + "SignBytes")
+					ok = len(news) == 1 && len(wrong) == 0
+					if ok {
+						msg := conv(ca.sh.Of(CallArg(news[0], 1)))
+						keys := conv(ca.sh.Of(CallArg(news[0], 2))).String()
+						kh := conv(ca.sh.Of(CallArg(news[0], 3))).String()
+						_, okMsg := Match("@tmconsensus."+h.kind+"SignBytes(lit:tmconsensus.VoteTarget{Height:p2.Height,Round:p2.Round,BlockHash:rk($m)},p0.sigScheme)#0", msg)
+						ok = okMsg && keys == v+".RoundView.ValidatorSet.PubKeys" && kh == v+".RoundView.ValidatorSet.PubKeyHash"
+						det = fmt.Sprintf("message %s ; keys %s / %s", truncate(msg.String(), 160), keys, kh)
+					}
 				}
-				r.Check(ok, "C05.1", helper, w.Pos(hf.Pos()), "helper builds the proof over "+h.kind+" sign bytes of its (height, round, hash) arguments and the given keys: "+det)
+				r.Check(ok, "C05.1", con, w.InstrPos(c), "a new "+h.kind+" proof is built by "+cn+" over "+h.kind+" sign bytes of (message height, message round, block hash key) and the looked-up view's keys: "+det)
+			}
+			if hf := w.Fn(helper); hf != nil {
+				r.Pass("C05.1", helper, w.Pos(hf.Pos()), "checked at its call sites in the handler's terms")
 			} else {
 				r.Fail("C05.1", helper, "", "helper not found")
 			}
@@ -249,7 +247,8 @@ func runC05(r *Run) {
 				okK := true
 				for _, alt := range alts {
 					s := alt.String()
-					if !(s == "p3.VRV.RoundView.ValidatorSet.PubKeys" || strings.HasPrefix(s, "@@tmmirror.pubKeyLoader.LoadPubKeys(p0.vs,p1,p2.PubKeyHash)#0")) {
+					// (a nil alternative is the value on a helper's failure return, which the caller does not use)
+					if !(s == "nil" || s == "p3.VRV.RoundView.ValidatorSet.PubKeys" || strings.HasPrefix(s, "@@tmmirror.pubKeyLoader.LoadPubKeys(p0.vs,p1,p2.PubKeyHash)#0")) {
 						okK = false
 					}
 				}
@@ -277,7 +276,8 @@ func runC05(r *Run) {
 				okK := true
 				for _, alt := range alts {
 					s := alt.String()
-					if !(s == "p3.VRV.RoundView.ValidatorSet.PubKeys" || strings.HasPrefix(s, "@@tmmirror.pubKeyLoader.LoadPubKeys(p0.vs,p1,p2.PubKeyHash)#0")) {
+					// (a nil alternative is the value on a helper's failure return, which the caller does not use)
+					if !(s == "nil" || s == "p3.VRV.RoundView.ValidatorSet.PubKeys" || strings.HasPrefix(s, "@@tmmirror.pubKeyLoader.LoadPubKeys(p0.vs,p1,p2.PubKeyHash)#0")) {
 						okK = false
 					}
 				}
